@@ -85,6 +85,9 @@ class TemplateHandler(dict):
     # Used for deferred loading
     loading = {}
 
+    # Guards the tables of loaded documents and of loading threads.
+    _lock = threading.RLock()
+
     def browse(self, url):
         """
         Load, cache and pretty print an odML template XML file from a URL.
@@ -139,11 +142,17 @@ class TemplateHandler(dict):
         # nested (include) odML files.
         print("\nLoading file %s" % url)
 
-        if url in self:
-            doc = self[url]
-        elif url in self.loading:
-            self.loading[url].join()
-            self.loading.pop(url, None)
+        with self._lock:
+            if url in self:
+                return self[url]
+
+            thread = self.loading.get(url)
+
+        if thread is not None:
+            thread.join()
+            with self._lock:
+                if self.loading.get(url) is thread:
+                    self.loading.pop(url, None)
             doc = self.load(url)
         else:
             doc = self._load(url)
@@ -172,7 +181,12 @@ class TemplateHandler(dict):
             print("Failed to load '%s' due to parser errors:\n %s" % (url, exc))
             return None
 
-        self[url] = doc
+        with self._lock:
+            # If another thread has loaded the same url in the meantime, keep
+            # its document; every caller has to receive the same cached object.
+            if self.get(url) is not None:
+                return self[url]
+            self[url] = doc
         return doc
 
     def deferred_load(self, url):
@@ -181,8 +195,12 @@ class TemplateHandler(dict):
 
         :param url: location of an odML template XML file.
         """
-        if url in self or url in self.loading:
-            return
+        # Check, register and start in one step: a thread that is found in the
+        # loading table must have been started, it may be joined right away.
+        with self._lock:
+            if url in self or url in self.loading:
+                return
 
-        self.loading[url] = threading.Thread(target=self._load, args=(url,))
-        self.loading[url].start()
+            thread = threading.Thread(target=self._load, args=(url,))
+            self.loading[url] = thread
+            thread.start()
